@@ -325,6 +325,7 @@ inline auto coro_queue::create_suspend_point(Fn &&fn)
         if constexpr(std::is_void_v<ret_v>) {
             fn();
             while (instance->_queue.size() > sz) {
+                COCLS_VERIF_LOG("q_unq", reinterpret_cast<long>(instance->_queue.back().address()), 0);
                 ss << instance->_queue.back();
                 instance->_queue.pop_back();
             }
@@ -332,6 +333,7 @@ inline auto coro_queue::create_suspend_point(Fn &&fn)
         } else {
             ret_v v = fn();
             while (instance->_queue.size() > sz) {
+                COCLS_VERIF_LOG("q_unq", reinterpret_cast<long>(instance->_queue.back().address()), 0);
                 ss << instance->_queue.back();
                 instance->_queue.pop_back();
             }
